@@ -847,7 +847,9 @@ pub fn run_once_in(sc: &Sc, mode: Mode, hash_seed: u64, keep_cache: bool, boc: O
     // Input files live on the simulated disk, so the real File::open/read path runs.
     let names: Vec<String> = sc.files.iter().map(|f| format!("/simfs/in/{}", f.name)).collect();
     with_world(|w| {
-        let mut cache = if keep_cache { w.fs.disk.list_files(crate::fx::CACHE_DIR) } else { vec![] };
+        // what earlier processes left anywhere under the home directory (wherever this implementation
+        // keeps its cache) survives; everything else is set up afresh
+        let mut cache: Vec<(String, Vec<u8>)> = if keep_cache { w.fs.disk.all_files().into_iter().filter(|(p, _)| p.starts_with("/simfs/home/")).collect() } else { vec![] };
         if let (Some(fx), Some(data)) = (&sc.fx, &boc) {
             if let Some(until) = &fx.hand_edited_cache_until {
                 // the same hand-edited year file before every process
@@ -859,12 +861,12 @@ pub fn run_once_in(sc: &Sc, mode: Mode, hash_seed: u64, keep_cache: bool, boc: O
                     text.push_str(&format!("{},{}\n", day, rate));
                     day += Duration::days(1);
                 }
-                cache = vec![(format!("rates-{}.csv", until.year()), text.into_bytes())];
+                cache = vec![(format!("{}/rates-{}.csv", crate::fx::CACHE_DIR, until.year()), text.into_bytes())];
             }
         }
         w.fs.disk = crate::simfs::Disk::new();
         for (n, data) in cache {
-            w.fs.disk.put_file(&format!("{}/{}", crate::fx::CACHE_DIR, n), &data);
+            w.fs.disk.put_file(&n, &data);
         }
         for (f, n) in sc.files.iter().zip(&names) {
             w.fs.disk.put_file(n, f.text().as_bytes());
